@@ -428,6 +428,18 @@ def rule_substitutions(ctx, pmod, model):
                     bad.append((text(num, acc, sf), "ill-formed numeral", ans))
         ctx.check(not bad, R, "substitute.wellformed[%s]" % num, fi.where(), "substitute([<prefix>%s<suffix>], 0)" % num,
                   "answers that are not <accidentals><numeral><constructible suffix>: %s" % bad[:3])
+        # the diminished sevenths offered for a chord form one family: their roots cycle by minor thirds
+        cyc = []
+        for (acc, sf), _, _a in calls:
+            kind, v = out[(acc, sf)]
+            if kind != "return" or not isinstance(v, list):
+                continue
+            roots = [(_num_pitch(pn[0], pn[1]), ans) for ans in v for pn in [_parse_numeral(ans)] if pn is not None and pn[2] == "dim7"]
+            off = [(a, b) for (pa, a) in roots for (pb, b) in roots if (pa - pb) % 3 != 0]
+            if off:
+                cyc.append((text(num, acc, sf), sorted({x for pair in off for x in pair})))
+        ctx.check(not cyc, R, "substitute.dim7-family[%s]" % num, fi.where(), "substitute([<prefix>%s<suffix>], 0): diminished sevenths" % num,
+                  "the diminished seventh substitutes do not cycle by minor thirds: %s" % cyc[:2])
 
 
 def rule_argument_untouched(ctx, pmod, model):
